@@ -176,7 +176,7 @@ let bytes_of_string s = List.init (String.length s) (fun i -> n_of_int (Char.cod
 
 let () =
   let cfuel = nat_of_int 5000 in
-  let vfuel = nat_of_int 200000 in
+  let vfuel = nat_of_int (try int_of_string (Sys.getenv "VM_FUEL") with Not_found -> 60000) in
   let globals = [bytes_of_string "len"; bytes_of_string "print"] in
   try
     while true do
